@@ -37,6 +37,7 @@ WIDTHS = st.one_of(
     st.integers(0, 119).map(lambda v: v + 0.5),
     st.floats(0.25, 300).map(lambda v: round(v, 2) or 0.25),
     st.sampled_from([0.25, 1, 2, 7, 20, 300, 700]),
+    st.sampled_from([0.001, 0.01, 0.1]),
 )
 
 
